@@ -258,12 +258,28 @@ func knownShape(args []string, want interface{}, st *model.Store, pre preState, 
 	return ""
 }
 
-// known13: the plain SCAN command returns table:key as the partition cursor
-// and the server prepends the table again on the next call, so every page
-// after the first starts at the wrong place.
-func known13(sp scanSpec, rule string, pages int) string {
-	if sp.cmd == "scan" && pages >= 2 {
+// known13: recorded deviations of the scan commands, recognised by the shape
+// of the iteration (nul: some element name in scope or the start cursor
+// contains a 0x00 byte).
+func known13(sp scanSpec, rule string, pages int, engine string, nul bool) string {
+	switch {
+	case sp.cmd == "scan" && pages >= 2:
+		// the plain SCAN command returns table:key as the partition cursor and
+		// the server prepends the table again on the next call, so every page
+		// after the first starts at the wrong place
 		return "scan-cursor-carries-the-table-twice"
+	case sp.keyScan() && sp.rev && sp.count == 0:
+		// without COUNT the merge code writes the per-partition count over the
+		// command name, the partition no longer sees "advrevscan"/"revscan"
+		return "merged-reverse-scan-without-count-returns-nothing"
+	case strings.Contains(sp.match, "\x00") || (sp.match != "" && sp.qualified && strings.Contains(sp.table, "\x00")):
+		// the glob library ends the pattern at a 0x00 byte
+		return "glob-pattern-cut-at-nul-byte"
+	case sp.keyScan() && sp.match != "" && !sp.qualified:
+		// the pattern is matched against table:key, not against the key name
+		return "key-scan-match-applied-to-table-prefixed-key"
+	case engine == "mem" && nul:
+		return "memradix-nul-extended-key-seek"
 	}
 	return ""
 }
